@@ -341,6 +341,15 @@ fn simple_op(db: &Database, ks: &HashMap<String, Keyspace>, t: &[&str]) -> Optio
             }
             _ => "err:NoKs".into(),
         },
+        "ingest1" => match k(a[0]) {
+            // ingest1 <ks> <key> <value>: a bulk ingestion of one item (usable from spawned threads)
+            Some(k) => res(&(|| -> fjall::Result<()> {
+                let mut ing = k.start_ingestion()?;
+                ing.write(unhex(a[1]), unhex(a[2]))?;
+                ing.finish()
+            })()),
+            None => "err:NoKs".into(),
+        },
         "persist" => res(&db.persist(persist_mode(a[0]))),
         "get" => match k(a[0]) {
             Some(k) => match k.get(unhex(a[1])) {
@@ -1014,6 +1023,10 @@ fn main() {
             "seqno" => {
                 let d = w.db.as_ref().expect("db").inner();
                 format!("seqno={} visible={}", d.seqno(), d.visible_seqno())
+            }
+            "rotation_threshold" => {
+                fjall::verif::set_rotation_threshold(a[0].parse().expect("threshold"));
+                "ok".into()
             }
             "maxseq" => {
                 let d = w.db.as_ref().expect("db").inner();
